@@ -218,8 +218,21 @@ TryOverloads(decls, A, i, last) ==
     ELSE LET r == AsIsBind(decls[i], A, FALSE) IN
          IF r.res = "ok" THEN r ELSE TryOverloads(decls, A, i + 1, r)
 
-AsIsCall(decls, A, anyret) ==
-    LET r == AsIsBind(decls[1], A, anyret) IN
+\* Dev_OverloadKeywordParamsShareSlot: parameters live in the frame table under class + method + parameter name;
+\* positional parameters get generated names, keyword parameters keep their key, so every overload that declares
+\* `k:` reads the slot the declaration loaded LAST wrote
+LastDeclaring(decls, key) == CHOOSE i \in 1..Len(decls) :
+    /\ \E j \in 1..Len(decls[i]) : decls[i][j].key = key
+    /\ \A i2 \in 1..Len(decls) : (\E j \in 1..Len(decls[i2]) : decls[i2][j].key = key) => i2 <= i
+Slot(decls, key) == LET d == decls[LastDeclaring(decls, key)] IN CHOOSE p \in {d[j] : j \in 1..Len(d)} : p.key = key
+\* (type and default flag both live in the slot)
+ShareSlots(decls) ==
+    [i \in 1..Len(decls) |-> [j \in 1..Len(decls[i]) |->
+        IF IsKeyParam(decls[i][j]) THEN Slot(decls, decls[i][j].key) ELSE decls[i][j]]]
+
+AsIsCall(declsWritten, A, anyret) ==
+    LET decls == ShareSlots(declsWritten)
+        r == AsIsBind(decls[1], A, anyret) IN
     IF r.res = "ok" \/ Len(decls) = 1 THEN r ELSE TryOverloads(decls, A, 2, r)
 
 =============================================================================
